@@ -57,8 +57,10 @@ Section Process.
      [resolve d p = p] for every d. *)
   Variable resolve : dir -> nat -> nat.
   (* against which directory a program opens the request path: [opendir pkg d] for the program living in pkg,
-     called from working directory d.  The code under test chdirs to pkg before opening ([code_opendir]: pkg);
-     handing main() a path made absolute at request time would be [caller_opendir]: d. *)
+     called from working directory d.  The CURRENT clients hand main() the path made absolute against the caller's
+     directory ([caller_opendir]: d; the GEOPHIRES client at request time, HipRaInputParameters when it is built -
+     the histories build it at the request); the clients of the PINNED tree passed the path on as given and main()
+     chdirs to pkg before opening it ([pinned_opendir]: pkg). *)
   Variable opendir : dir -> dir -> dir.
   Variable runh : nat -> C -> option R.   (* the HIP-RA programs (1 = hip_ra_x, 2 = hip_ra) on a file content *)
   (* the key of the client's result cache, computed from the requested path and the content its file has at
@@ -244,9 +246,10 @@ Fixpoint mc_package {C : Type} (m : nat) (ps : list nat) (c : C) : list (op C) :
    Concrete instance used by the correspondence: contents and results are numbers, the result of a
    content is the content itself (so a returned result names the content it was computed from),
    contents listed in [okc] run, all others raise; hash = the path identifier. *)
-(* where the code under test opens a request path: in the program's own directory; and the repair *)
-Definition code_opendir (pkg _ : dir) : dir := pkg.
+(* where a request path is opened: by the current clients in the caller's directory, by the clients of the pinned
+   tree in the program's own directory *)
 Definition caller_opendir (_ d : dir) : dir := d.
+Definition pinned_opendir (pkg _ : dir) : dir := pkg.
 
 (* the cache key of the code under test: hash(file path), whatever the file holds *)
 Definition path_key {C : Type} (hash : nat -> Z) (p : nat) (_ : option C) : Z := hash p.
@@ -343,8 +346,6 @@ Definition F_MODEL : N := 1.     (* implementation differs from the model of the
 Definition F_RESTORE : N := 2.   (* property: cwd/argv not restored *)
 Definition F_REFINE : N := 3.    (* property: result is not the run of the current content *)
 Definition F_STALE : N := 4.     (* property: the same, and it is exactly the modelled path-keyed cache hit *)
-Definition F_REL : N := 5.       (* property: the same, and it is exactly the modelled resolution of a relative
-                                    request path against the program's directory instead of the caller's *)
 Definition F_HARNESS : N := 9.   (* observation list and operation list differ in length *)
 
 (* the two instances the correspondence runs *)
@@ -356,8 +357,8 @@ Definition ctrace_with (od : dir -> dir -> dir) (g : cfg) (fixed : bool) (d : di
   : list (event nat nat (Z * option nat)) :=
   trace nat nat (crun (g_okc g)) chash (cresolve (g_rt g)) od (crunh (g_okh g)) (Z * option nat) (content_keq Nat.eqb)
         (content_key chash) fixed (init d a (g_files g)) ops.
-Definition ptrace := ptrace_with code_opendir.     (* the code under test *)
-Definition ctrace := ctrace_with code_opendir.     (* ... with the content-keyed cache *)
+Definition ptrace := ptrace_with caller_opendir.     (* the code under test *)
+Definition ctrace := ctrace_with caller_opendir.     (* ... with the content-keyed cache *)
 
 Definition obs_matches {K : Type} (e : event nat nat K) (b : obs) : bool :=
   dir_eqb (cwd (after e)) (o_cwd_after b) && list_eqb arg_eqb (argv (after e)) (o_argv_after b)
@@ -366,17 +367,6 @@ Definition obs_matches {K : Type} (e : event nat nat K) (b : obs) : bool :=
 Definition stale_hit_as_modelled {K : Type} (e : event nat nat K) (b : obs) : bool :=
   match eout e with
   | Returned _ true => outcome_eqb (eout e) (o_out b)
-  | _ => false
-  end.
-
-(* the request path names another file for the program (which resolves it in its own directory) than for the
-   caller, and the implementation did what the model does *)
-Definition rel_as_modelled {K : Type} (g : cfg) (e : event nat nat K) (b : obs) : bool :=
-  match eop e with
-  | Get _ p => negb (Nat.eqb (cresolve (g_rt g) (o_cwd_before b) p) (cresolve (g_rt g) DSrc p))
-               && outcome_eqb (eout e) (o_out b)
-  | HipGet k p => negb (Nat.eqb (cresolve (g_rt g) (o_cwd_before b) p) (cresolve (g_rt g) (DPkg k) p))
-                  && outcome_eqb (eout e) (o_out b)
   | _ => false
   end.
 
@@ -389,8 +379,7 @@ Fixpoint session_codes {K : Type} (g : cfg) (i : N) (f : fs nat) (evs : list (ev
       let m := if obs_matches e b then [] else [i * 10 + F_MODEL]%N in
       let r := if check_restore_step o b then [] else [i * 10 + F_RESTORE]%N in
       let q := if check_refines_step g f o b then []
-               else [i * 10 + (if rel_as_modelled g e b then F_REL
-                               else if stale_hit_as_modelled e b then F_STALE else F_REFINE)]%N in
+               else [i * 10 + (if stale_hit_as_modelled e b then F_STALE else F_REFINE)]%N in
       m ++ r ++ q ++ session_codes g (N.succ i) (files_step f o) evs' os'
   | [], [] => []
   | _, _ => [i * 10 + F_HARNESS]%N
@@ -410,11 +399,9 @@ Definition session_matches (fixed : bool) (g : cfg) (d : dir) (a : list arg) (op
   (os : list obs) : bool := all_match (ptrace g fixed d a ops) os.
 Definition session_matches_repaired (fixed : bool) (g : cfg) (d : dir) (a : list arg) (ops : list (op nat))
   (os : list obs) : bool := all_match (ctrace g fixed d a ops) os.
-(* request paths opened against the CALLER's directory (the repair of the relative-path defect), with either cache *)
-Definition session_matches_callerdir (content_keyed : bool) (g : cfg) (d : dir) (a : list arg) (ops : list (op nat))
-  (os : list obs) : bool :=
-  if content_keyed then all_match (ctrace_with caller_opendir g true d a ops) os
-  else all_match (ptrace_with caller_opendir g true d a ops) os.
+(* request paths opened in the PROGRAM's directory (the clients of the pinned tree, before fa4a753) *)
+Definition session_matches_pinned_path (g : cfg) (d : dir) (a : list arg) (ops : list (op nat))
+  (os : list obs) : bool := all_match (ptrace_with pinned_opendir g true d a ops) os.
 
 (* many sessions: (number of sessions, [session * 100000 + step * 10 + code]) *)
 Fixpoint sessions_codes (k : N) (l : list (list N)) : list N :=
